@@ -24,6 +24,10 @@ Scope notes.
 -/
 import Proofs.Fuzz
 import Proofs.IRFast
+import Proofs.PrimeGrammar
+import Proofs.FuzzTerm
+import Proofs.Evo
+import Proofs.FuzzTermNeg
 namespace FV
 
 /-! ## 1. budgeted expansion (`Node.fuzz`) only produces derivations -/
@@ -382,5 +386,232 @@ example : Matches exR (.cat "c1" ([] ++ .rep "r1" .braces (.nt "<a>" none none) 
 /-- `C01_reachable_valid`: fuzz, pick a subtree, replace -/
 example : Reachable exG exR [ATree.ofTree exTree] :=
   .fuzz (fuel := 6) (start := "<start>") (path := ["<start>"]) (b := 20) (tape' := []) .init C01_exTape_ok (by rfl)
+
+/-! ## 7. `Grammar.prime()`: the distances budgeted expansion steers by -/
+
+/-- **`prime()` returns, after at most `n (n+1) / 2` iterations of its `while` loop** (`n` = number of
+    non-terminal grammar nodes), when every node is completable (`Prime.Comp`: a terminal; a symbol whose
+    rule is available; an alternative with an available branch; a concatenation / repetition whose parts
+    are available — where `Star` / `Option` nodes count as available from the start, because they are
+    born with the distance 0.0) -/
+theorem C01_prime_terminates (G : Grammar) (hwf : G.repWF = true)
+    (hall : ∀ p ∈ worklist G, Prime.Comp (kindAt G) (fun c => initAt G c ≠ none) p) :
+    ∃ s, primeFresh G (primeBound (worklist G).length) = .done s :=
+  Prime.loop_terminates _ _ _ rfl (Prime.fresh_grammar G hwf).inv hall
+
+/-- **… and only then**: while one node cannot be completed the loop never ends (it re-appends the node
+    for ever) — whatever the iteration bound, `prime()` has not returned.  NB this includes nodes the
+    start symbol does not need: an unproductive symbol below `*` / `?`, an unused rule. -/
+theorem C01_prime_returns_iff_completable (G : Grammar) (hwf : G.repWF = true) :
+    (∃ fuel s, primeFresh G fuel = .done s) ↔
+      ∀ p ∈ worklist G, Prime.Comp (kindAt G) (fun c => initAt G c ≠ none) p := by
+  constructor
+  · rintro ⟨fuel, s, h⟩ p hp
+    apply Classical.byContradiction
+    intro hnc
+    exact Prime.loop_never_done ((Prime.fresh_grammar G hwf).nterm p hp) hnc fuel _ _
+      (Prime.sound_init _ _) hp s h
+  · intro hall
+    obtain ⟨s, hs⟩ := C01_prime_terminates G hwf hall
+    exact ⟨_, s, hs⟩
+
+/-- **the values `prime()` leaves behind**: terminals 1; every other node carries a finite value `d`,
+    and `d` is the update rule of its class (`ruleVal`: rule + 1, min + 1, sum + 1, body · min + 1) applied
+    to an *earlier look* `v` at the final state `s` — each entry of `v` is the final one, or still `inf`,
+    or the 0.0 a `Star` / `Option` is born with.  (It is NOT a fixpoint of the rule in general:
+    `C01_prime_not_fixpoint`.) -/
+theorem C01_prime_values_by_update_rule (G : Grammar) (hwf : G.repWF = true) (fuel : Nat) (s : Pos → Dist)
+    (h : primeFresh G fuel = .done s) :
+    (∀ p, kindAt G p = .term → s p = some 1) ∧
+    ∀ p, kindAt G p ≠ .term →
+      ∃ v d, Prime.View (kindAt G) v s ∧ ruleVal (kindAt G) v p = some d ∧ s p = some d := by
+  have hinv := Prime.loop_inv _ _ _ _ (Prime.fresh_grammar G hwf).inv h
+  exact ⟨hinv.term, fun p hp => hinv.fin p hp (by simp)⟩
+
+/-- **what budgeted expansion needs of the distances holds of `prime()`'s output** (`WellDist`: from a
+    symbol to its rule the distance drops strictly — unless the rule is a `min = 0` repetition —, from a
+    concatenation / repetition to its parts and from an alternative to its minimum-distance branches it
+    does not grow).  `primedB G`: the annotations of `G` are exactly what `prime()` computes on freshly
+    constructed nodes — evaluated by the harness on every real grammar. -/
+theorem C01_prime_wellDist (G : FGrammar) (h : primedB G = true) : WellDist G :=
+  Prime.wellDist_of_primed G h
+
+/-- `<start> ::= <a>` ; `<a> ::= <b>*` ; `<b> ::= <a> "x"` -/
+def exP : Grammar :=
+  { rules := [("<start>", .nt "<a>" none none),
+              ("<a>", .rep "s" .star (.nt "<b>" none none) 0 none),
+              ("<b>", .cat "c" [.nt "<a>" none none, .term (.lit (.text [120]))])] }
+
+def doneState : PRes Pos → Pos → Dist
+  | .done s => s
+  | _ => fun _ => none
+
+/-- **the result is not a fixpoint of the update rule and depends on the worklist order**: the symbol
+    node `<a>` in `<start>`'s rule is evaluated while the `Star` it refers to still carries its initial
+    0.0, and is never looked at again: it ends with 1, its rule with 1 (the rule says rule + 1 = 2).
+    The real `prime()` leaves exactly these values (correspondence case `prime:corpus`). -/
+theorem C01_prime_not_fixpoint :
+    primeFresh exP 10 = .done (doneState (primeFresh exP 10)) ∧
+    doneState (primeFresh exP 10) (0, []) = some 1 ∧ doneState (primeFresh exP 10) (1, []) = some 1 ∧
+    ruleVal (kindAt exP) (doneState (primeFresh exP 10)) (0, []) = some 2 := by
+  refine ⟨by rfl, by rfl, by rfl, by rfl⟩
+
+/-- `<start> ::= "a" <b>*` ; `<b> ::= <b> "x"` — the language is `{"a"}`, `<start>` is productive -/
+def exH : Grammar :=
+  { rules := [("<start>", .cat "c0" [.term (.lit (.text [97])), .rep "s" .star (.nt "<b>" none none) 0 none]),
+              ("<b>", .cat "c1" [.nt "<b>" none none, .term (.lit (.text [120]))])] }
+
+/-- **`prime()` never returns on `exH`** (the real one does not either: it is called while the spec is
+    loaded; see /var/tmp/fixes/C01-prime-hangs-on-unproductive) -/
+theorem C01_prime_hangs_on_unproductive_symbol (fuel : Nat) (s : Pos → Dist) : primeFresh exH fuel ≠ .done s := by
+  have hk1 : kindAt exH (1, [0]) = .nt (some (1, [])) := by rfl
+  have hk2 : kindAt exH (1, []) = .cat [(1, [0]), (1, [1])] := by rfl
+  have hz1 : ¬ (initAt exH (1, [0]) ≠ none) := by simp [show initAt exH (1, [0]) = none from rfl]
+  have hz2 : ¬ (initAt exH (1, []) ≠ none) := by simp [show initAt exH (1, []) = none from rfl]
+  have key : ∀ a, Prime.Comp (kindAt exH) (fun c => initAt exH c ≠ none) a → a ≠ (1, [0]) ∧ a ≠ (1, []) := by
+    intro a h
+    induction h with
+    | term hk => constructor <;> (rintro rfl; simp [hk1, hk2] at hk)
+    | nt hk _ ih =>
+      constructor
+      · rintro rfl
+        rw [hk1] at hk
+        cases hk
+        exact (ih hz2).2 rfl
+      · rintro rfl; rw [hk2] at hk; cases hk
+    | alt hk _ _ _ => constructor <;> (rintro rfl; simp [hk1, hk2] at hk)
+    | cat hk _ ih =>
+      constructor
+      · rintro rfl; rw [hk1] at hk; cases hk
+      · rintro rfl
+        rw [hk2] at hk
+        cases hk
+        exact (ih (1, [0]) (by simp) hz1).1 rfl
+    | rep hk _ _ => constructor <;> (rintro rfl; simp [hk1, hk2] at hk)
+  have hnc : ¬ Prime.Comp (kindAt exH) (fun c => initAt exH c ≠ none) (1, [0]) := fun h => (key _ h).1 rfl
+  exact Prime.loop_never_done (by rw [hk1]; simp) hnc fuel _ _ (Prime.sound_init _ _) (by decide) s
+
+/-! ## 8. termination of budgeted expansion -/
+
+/-- `expandF` / `fuzzStartF` (`Model/FuzzT.lean`) are `expand` / `fuzzStart` with the reason for "no
+    result" kept apart: `stuck` (the tape is not a run of the code) vs. `fuel` (recursion bound hit) -/
+theorem C01_expandF_refines_expand (G : FGrammar) (fuel : Nat) (start : String) (path : List String) (b : Int)
+    (tape : Tape) : (fuzzStartF G fuel start path b tape).toOption = fuzzStart G fuel start path b tape :=
+  Term.fuzzStartF_toOption G fuel start path b tape
+
+/-- **once the budget is exhausted `Node.fuzz` returns, for ALL tapes, within a recursion depth that
+    depends on the grammar alone** (`G.depthBound` = width · (largest distance + 1)): with `max_nodes ≤ 1`
+    every alternative is chosen by minimum distance, every repetition makes `min` iterations, and each
+    step strictly decreases `Term.mu` (distance · width + node size).  Primed, generator-free grammars. -/
+theorem C01_expand_terminates_exhausted (G : FGrammar) (hp : primedB G = true) (hg : G.gens = [])
+    (fuel : Nat) (start : String) (path : List String) (b : Int) (hb : b ≤ 1) (tape : Tape)
+    (hf : G.depthBound + 2 ≤ fuel) : fuzzStartF G fuel start path b tape ≠ .fuel := by
+  apply Term.fuzzStartF_no_fuel G (C01_prime_wellDist G hp) hg
+  simp only [hb, if_true]
+  omega
+
+/-- **with budget left, the recursion depth is bounded by the number of random draws**: `Node.fuzz`
+    never descends more than `G.depthBound` levels without drawing (`random.choice` in `Alternative`,
+    `random.randint` in `Repetition`), so a run that makes `k` draws stays within
+    `(k + 1) · depthBound + 2` levels — for ALL budgets and tapes.  A bound in terms of the budget alone
+    does not exist (section 8b). -/
+theorem C01_expand_terminates_partial (G : FGrammar) (hp : primedB G = true) (hg : G.gens = [])
+    (fuel : Nat) (start : String) (path : List String) (b : Int) (tape : Tape)
+    (hf : G.fuelFor tape ≤ fuel) : fuzzStartF G fuel start path b tape ≠ .fuel := by
+  apply Term.fuzzStartF_no_fuel G (C01_prime_wellDist G hp) hg
+  unfold FGrammar.fuelFor at hf
+  have e : (tape.length + 1) * G.depthBound = tape.length * G.depthBound + G.depthBound := Nat.succ_mul _ _
+  have : (if b ≤ 1 then 0 else tape.length) * G.depthBound ≤ tape.length * G.depthBound :=
+    Nat.mul_le_mul_right _ (by split <;> omega)
+  omega
+
+/-! ## 8b. … and no bound in terms of the budget alone exists -/
+
+/-- the statement at full strength: for a primed generator-free grammar, a start symbol and a budget
+    there is a recursion bound that no tape exceeds (`Node.fuzz` returns whatever the random source does) -/
+def C01_expand_terminates_statement : Prop :=
+  ∀ (G : FGrammar), primedB G = true → G.gens = [] → ∀ (start : String) (b : Int),
+    ∃ F, ∀ (path : List String) (tape : Tape) (fuel : Nat), F ≤ fuel → fuzzStartF G fuel start path b tape ≠ .fuel
+
+/-- **it is false of the code as it is**: on `<start> ::= <a>` ; `<a> ::= ("(" <a> ")")*` (`Neg.exN`, with the
+    distances the real `prime()` computes) and `max_nodes = 50`, the draws `Neg.spine F` — `randint → 2`, in the
+    first iteration the inner `randint → 0`, in the second the same again — drive the recursion below ANY bound
+    `F`: `Repetition.fuzz` gives the iterations beyond `min` more budget than it has (`reserved_max_nodes` goes
+    negative), so the `Star` three levels further down is called with the same budget 48 again.
+    Replayed on the real `Grammar.fuzz` with scripted draws: /var/tmp/fixes/C01-fuzz-budget-inflation. -/
+theorem C01_expand_no_budget_bound (F : Nat) :
+    fuzzStartF Neg.exN F "<start>" ["<start>"] 50 (Neg.spine F) = .fuel :=
+  Neg.fuzz_spine_fuel F
+
+theorem C01_expand_terminates_false : ¬ C01_expand_terminates_statement := by
+  intro h
+  obtain ⟨F, hF⟩ := h Neg.exN (by rfl) rfl "<start>" 50
+  exact hF ["<start>"] (Neg.spine F) F (Nat.le_refl _) (C01_expand_no_budget_bound F)
+
+/-! ## 9. the evolution-level operators, line by line (`Model/Evo.lean`) -/
+
+/-- **`SimpleSubtreeCrossover.crossover`**: both children are derivations with their parent's root symbol —
+    for every pair of valid parents and every choice of the common symbol and of the two nodes.
+    (The model is functional: the parents are arguments and cannot change; that the real operator leaves
+    its inputs alone is checked by the correspondence `crossover_mutates_input`.) -/
+theorem C01_crossover_valid (G : Grammar) (R : RegexOracle) (fuel : Nat) (p1 p2 c1 c2 : ATree) (sym : String)
+    (k1 k2 : Nat) (h1 : AValid G R p1) (h2 : AValid G R p2) (h : crossover fuel p1 p2 sym k1 k2 = .ok c1 c2) :
+    (AValid G R c1 ∧ c1.sym = p1.sym) ∧ (AValid G R c2 ∧ c2.sym = p2.sym) :=
+  Evo.crossover_valid G R fuel p1 p2 c1 c2 sym k1 k2 h1 h2 h
+
+/-- **`SimpleMutation.mutate`**: the mutated individual is a derivation with the same root symbol — for
+    every set of failing trees, both index draws, every budget and every admissible tape of the `fuzz` call -/
+theorem C01_mutate_valid (G : FGrammar) (R : RegexOracle) (fuelF fuelR : Nat) (ind m : ATree)
+    (failing : List (List Nat)) (maxNodes : Int) (i j : Nat) (tape rest : Tape)
+    (hv : AValid G.erase R ind) (htape : TapeOk G.erase R tape)
+    (h : mutate G fuelF fuelR ind failing maxNodes i j tape = .ok m rest) :
+    AValid G.erase R m ∧ m.sym = ind.sym :=
+  let r := Evo.mutate_valid G R fuelF fuelR ind m failing maxNodes i j tape rest hv htape h
+  ⟨r.1, r.2.1⟩
+
+/-- … and without a writable nonterminal failing tree the individual itself is returned -/
+theorem C01_mutate_nothing_to_mutate (G : FGrammar) (fuelF fuelR : Nat) (ind : ATree) (failing : List (List Nat))
+    (maxNodes : Int) (i j : Nat) (tape : Tape) :
+    mutate G fuelF fuelR ind failing maxNodes i j tape = .same ↔ mutCands ind failing = [] :=
+  Evo.mutate_same_iff G fuelF fuelR ind failing maxNodes i j tape
+
+/-- **`PopulationManager.fix_individual`** (with `ApplyAll/ApplyFirst/Nop`, `RepetitionBoundsSuggestion`
+    and pairs handed out by parser-based suggestions): the repaired individual is a derivation with the same
+    root symbol, provided every leaf suggestion is sound (`Evo.SuggOk`): a `given` pair carries a derivation
+    (parser output, C04 / a copy of a subtree), and for a `RepetitionBoundsSuggestion` the parent's children
+    still spell out its rule once the trailing iterations are dropped / `goal - bound` iterations of the body
+    are spliced in behind the last one (`Evo.RepOk`; sections 3 gives this for whole iterations and a count
+    within the bounds).  The full-delete branch (copy of the first common node, nested replace, read-only
+    marks) is covered. -/
+theorem C01_fix_valid (G : FGrammar) (R : RegexOracle) (fuel : Nat) (ind ind' : ATree) (sugg : Option Sugg)
+    (tape tape' : Tape) (n : Nat) (hv : AValid G.erase R ind) (htape : TapeOk G.erase R tape)
+    (hok : ∀ s, sugg = some s → Evo.SuggOk G R ind s)
+    (h : fixIndividual G fuel ind sugg tape = some ((ind', n), tape')) :
+    AValid G.erase R ind' ∧ ind'.sym = ind.sym :=
+  let r := Evo.fix_valid G R fuel ind ind' sugg tape tape' n hv htape hok h
+  ⟨r.1, r.2.1⟩
+
+/-- non-vacuity: crossing `exA` with itself at `<a>` (second `<a>` of the first parent, first of the second) -/
+example : (match crossover 10 exA exA "<a>" 1 0 with
+    | .ok c1 c2 => (c1.erase, c2.erase)
+    | _ => (exTree, exTree))
+    = (.node "<start>" [.node "<a>" [.leaf (.text [97])], .node "<a>" [.leaf (.text [97])], .leaf (.text [120])],
+       .node "<start>" [.node "<a>" [.leaf (.text [55])], .node "<a>" [.leaf (.text [55])], .leaf (.text [120])]) := by
+  rfl
+
+/-- non-vacuity: mutating the second `<a>` of `exA` (failing tree = the root; draws 0, 2; the `fuzz` call
+    gets `max_nodes = 2 + (50 - 6)`) -/
+example : (match mutate exG 6 10 exA [[]] 50 0 2 [.alt 0] with
+    | .ok m _ => m.erase
+    | _ => exTree)
+    = .node "<start>" [.node "<a>" [.leaf (.text [97])], .node "<a>" [.leaf (.text [97])], .leaf (.text [120])] := by
+  rfl
+
+/-- non-vacuity of the primed / termination hypotheses: `exG` carries what `prime()` computes, has no
+    generators; bound for the exhausted regime -/
+example : primedB exG = true ∧ exG.gens = [] ∧ exG.depthBound = 42 := by
+  refine ⟨by rfl, rfl, by rfl⟩
+example : fuzzStartF exG 44 "<start>" ["<start>"] 1 [.rep 3, .alt 0, .rep 1]
+    = .ok (.node "<start>" [.node "<a>" [.leaf (.text [97])]], []) := by rfl
 
 end FV
